@@ -183,7 +183,11 @@ def _admt(ctx, eng):
     try:
         result, S, OPSYM, env = _sym_exec_admt(ctx['tree'])
     except Exception as e:
-        return [structural('admt/symbolic-execution', PROP, False, 'calculate_admt outside the supported subset: %r' % (e,))]
+        # not a violation: the function left the subset of the lifting executor -> undecided (a bounded native stand-in is tried by the runner)
+        from pyvc.values import Unsupported
+        u = Unsupported('calculate_admt outside the subset of the symbolic (sympy) executor: %r' % (e,))
+        u.label = 'cherab.tools.inversions.admt_utils.calculate_admt'
+        raise u
     out.append(structural('admt/symbolic-execution', PROP, True, 'calculate_admt executed symbolically (sympy)'))
     # specification: div(D grad f) in cylindrical geometry, D = Dperp n n^T + Dpar t t^T, n = grad(psi)/|grad(psi)|
     x, y = sp.symbols('x y', real=True)
@@ -286,9 +290,51 @@ LEMMAS = [_lemmas]
 def native_replay(ctx, o):
     """ADMT coefficient obligations: for anisotropy 1 the real calculate_admt must return the Laplacian
     Dxx + Dyy + diag(1/R) Dx (times sqrt(dx dy)) whatever the flux map; evaluated on a 6x6 grid with psi = x + 0.7 y + 0.5 y^2."""
+    from replaylib.native import run_native
+    if 'calculate_admt' in o.name and 'outside-subset' in o.name:
+        # bounded stand-in when calculate_admt leaves the symbolic executor's subset: a short history on a real grid - the operator for
+        # anisotropy 1 is the Laplacian, a repeated call with the same dictionary gives the same operator as one built from freshly
+        # generated derivative operators, and the caller's derivative operators are not modified
+        code = '''
+import numpy as np, copy
+from cherab.tools.inversions.admt_utils import generate_derivative_operators, calculate_admt
+nx, ny, dx, dy = 6, 5, 0.5, 0.25
+def grid():
+    verts = []; m12 = {}; m21 = {}; k = 0
+    for ix in range(nx):
+        for iy in range(ny):
+            x0 = 1.0 + ix * dx; y0 = 2.0 - iy * dy
+            verts.append([(x0, y0), (x0 + dx, y0), (x0 + dx, y0 - dy), (x0, y0 - dy)])
+            m12[k] = (ix, iy); m21[(ix, iy)] = k; k += 1
+    verts = np.array(verts)
+    return verts, verts.mean(axis=1), m12, m21
+verts, c, m12, m21 = grid()
+ops = generate_derivative_operators(verts, m12, m21)
+ref = {k: np.array(v, copy=True) for k, v in ops.items()}
+psi = c[:, 0] + 0.7 * c[:, 1] + 0.5 * c[:, 1] ** 2
+bad = []
+interior = [m21[(i, j)] for i in range(1, nx - 1) for j in range(1, ny - 1)]
+for step, an in enumerate((1, 10, 1)):
+    got = calculate_admt(c[:, 0], ops, psi, dx, dy, anisotropy=an)
+    fresh = calculate_admt(c[:, 0], {k: np.array(v, copy=True) for k, v in ref.items()}, psi, dx, dy, anisotropy=an)
+    if not np.allclose(got, fresh, rtol=1e-9, atol=1e-12):
+        bad.append({"call": step + 1, "anisotropy": an, "max_abs_difference_from_operator_built_on_fresh_derivative_operators": float(np.abs(got - fresh).max())})
+    for k in ref:
+        if not np.array_equal(ops[k], ref[k]):
+            bad.append({"call": step + 1, "derivative_operator_modified_in_place": k}); break
+    if an == 1:
+        want = (ref["Dxx"] + ref["Dyy"] + np.diag(1 / c[:, 0]) @ ref["Dx"]) * np.sqrt(dx * dy)
+        if not np.allclose(got[interior], want[interior], rtol=1e-9, atol=1e-9):
+            bad.append({"call": step + 1, "anisotropy": 1, "max_abs_difference_from_laplacian": float(np.abs(got[interior] - want[interior]).max())})
+print(json.dumps({"bad": bad[:4], "nbad": len(bad)}))
+'''
+        out = run_native(ctx, code, timeout=300)
+        exp = 'same operator as with freshly generated derivative operators; Laplacian for anisotropy 1; derivative operators untouched'
+        if out and out.get('nbad'):
+            return {'confirmed': True, 'input': out['bad'][0], 'observed': out, 'expected': exp}
+        return {'confirmed': False, 'input': None, 'observed': out, 'expected': exp}
     if '/admt/coefficient' not in o.name:
         return None
-    from replaylib.native import run_native
     code = '''
 import numpy as np
 from cherab.tools.inversions.admt_utils import generate_derivative_operators, calculate_admt
